@@ -509,3 +509,406 @@ Proof.
     repeat split; try assumption. eexists. apply C'.
   - destruct (hard && is_deleter (user_mode c u)); [apply sess_ok_users_map|apply sess_ok_users_aset]; exact S.
 Qed.
+
+(* ------------------------------------------------------------------ *)
+(* generic store+cache updates *)
+Lemma good_update s c u up p p' :
+  good s c -> u <> 0%N -> alookup u (c_users c) = Some p ->
+  core p' = core_after up p ->
+  (is_owner (p_want p') = true -> is_owner (p_given p') = true /\ u = c_owner c) ->
+  (u = c_owner c -> is_owner (p_want p') = true) ->
+  good (ad_subs_update s u up) (c_set_users (aset u p') c).
+Proof.
+  intros G NZ L E O1 O2.
+  eapply good_build; [exact G|apply sframe_subs_update|apply cframe_users|apply shape_subs_update; eapply good_shape; exact G| |].
+  - cbn [c_owner c_users c_set_users]. eapply vrel_update; try eassumption. apply G.
+  - cbn [c_owner c_set_users]. apply oinv_update; [apply oinv_old; apply G|].
+    intros w UW [Eo|E0]; [|contradiction]. specialize (O2 Eo). unfold core, core_after in E. rewrite UW in E. inv E. congruence.
+Qed.
+
+Lemma good_create s c t w g :
+  good s c -> t <> 0%N -> alookup t (c_users c) = None -> is_owner w = false ->
+  good (ad_sub_create s t w g) (c_set_users (aset t (mkPud w g 0 0 0 0)) c).
+Proof.
+  intros G NZ L W.
+  assert (t <> c_owner c) as NO.
+  { intros E. destruct (coh_owner _ _ (proj2 G)) as [p [Lp _]]. rewrite <- E in Lp. congruence. }
+  eapply good_build; [exact G|apply sframe_sub_create|apply cframe_users|apply shape_sub_create; [exact NZ|eapply good_shape; exact G]| |].
+  - cbn [c_owner c_users c_set_users]. intros v. rewrite alookup_aset, row_sub_create.
+    destruct (N.eqb_spec v t) as [->|NE]; [|apply vrel_old; apply G].
+    cbn. split; [reflexivity|]. rewrite W. discriminate.
+  - cbn [c_owner c_set_users]. destruct (oinv_old _ _ (proj2 G)) as [NZo [r [F Wr]]]. split; [exact NZo|].
+    rewrite row_sub_create. destruct (N.eqb_spec (c_owner c) t); [congruence|]. eauto.
+Qed.
+
+(* a row that is not cached is absent or soft-deleted, and its want has no O *)
+Lemma uncached_want s c t r :
+  coh s c -> alookup t (c_users c) = None -> ad_sub_get s t true = Some r -> is_owner (s_want r) = false.
+Proof.
+  intros C L H. unfold ad_sub_get in H. destruct (find_sub t (subs s)) as [r0|] eqn:F; [|discriminate].
+  rewrite andb_false_r in H. inv H.
+  pose proof (coh_at _ _ t C) as A. rewrite L, F in A.
+  pose proof (vrel_old _ _ t C) as V. rewrite F in V. destruct V as [_ V].
+  destruct (is_owner (s_want r)) eqn:O; [|reflexivity]. destruct (V eq_refl) as [D _]. congruence.
+Qed.
+
+Lemma is_owner_ldiff_O m : is_owner (N.ldiff m mO) = false.
+Proof.
+  unfold is_owner, has, mO. apply negb_false_iff, N.eqb_eq.
+  apply N.bits_inj. intros n. rewrite N.land_spec, N.ldiff_spec, N.bits_0.
+  destruct (N.testbit 128 n); [rewrite andb_false_r; reflexivity|apply andb_false_r].
+Qed.
+Lemma is_owner_lor a b : is_owner (N.lor a b) = is_owner a || is_owner b.
+Proof.
+  unfold is_owner, has, mO.
+  assert (forall x, negb (N.land x 128 =? 0)%N = N.testbit x 7) as T.
+  { intros x. destruct (N.testbit x 7) eqn:B.
+    - apply negb_true_iff, N.eqb_neq. intros E.
+      assert (N.testbit (N.land x 128) 7 = true) as X by (rewrite N.land_spec, B; reflexivity). rewrite E in X. discriminate.
+    - apply negb_false_iff, N.eqb_eq. apply N.bits_inj. intros n. rewrite N.land_spec, N.bits_0.
+      destruct (N.eq_dec n 7) as [->|NE]; [rewrite B; reflexivity|].
+      replace (N.testbit 128 n) with false; [apply andb_false_r|]. symmetry. change 128%N with (2 ^ 7)%N. apply N.pow2_bits_false. congruence. }
+  rewrite !T. apply N.lor_spec.
+Qed.
+Lemma is_owner_ldiff_D m : is_owner (N.ldiff m mD) = is_owner m.
+Proof.
+  unfold is_owner, has, mO, mD.
+  assert (forall x, negb (N.land x 128 =? 0)%N = N.testbit x 7) as T.
+  { intros x. destruct (N.testbit x 7) eqn:B.
+    - apply negb_true_iff, N.eqb_neq. intros E.
+      assert (N.testbit (N.land x 128) 7 = true) as X by (rewrite N.land_spec, B; reflexivity). rewrite E in X. discriminate.
+    - apply negb_false_iff, N.eqb_eq. apply N.bits_inj. intros n. rewrite N.land_spec, N.bits_0.
+      destruct (N.eq_dec n 7) as [->|NE]; [rewrite B; reflexivity|].
+      replace (N.testbit 128 n) with false; [apply andb_false_r|]. symmetry. change 128%N with (2 ^ 7)%N. apply N.pow2_bits_false. congruence. }
+  rewrite !T, N.ldiff_spec. change (N.testbit 64 7) with false. apply andb_true_r.
+Qed.
+
+Lemma invite_want f s c target given n1 n2 w :
+  good s c -> alookup target (c_users c) = None ->
+  match ad_sub_get s target true with
+  | Some r => (n1, Some (inr (s_want r)))
+  | None => let '(ok2, n2) := call f n1 in
+            if negb ok2 then (n2, Some (inl 500)) else
+            match alookup target (users s) with
+            | Some acc => (n2, Some (inr (N.land acc given)))
+            | None => (n2, Some (inl 404))
+            end
+  end = (n2, Some (@inr Z N w)) -> is_owner w = false.
+Proof.
+  intros [Wf C] L H. destruct (ad_sub_get s target true) as [r|] eqn:SG.
+  - inv H. eapply uncached_want; eassumption.
+  - destruct (call f n1) as [ok2 n2']. destruct (negb ok2); [discriminate|].
+    destruct (alookup target (users s)) as [acc|] eqn:LU; [|discriminate]. inv H.
+    rewrite is_owner_land. destruct Wf as [_ [_ [_ [A _]]]]. rewrite (A _ _ LU). reflexivity.
+Qed.
+
+Ltac split3 G3 := destruct G3 as [G S]; split.
+Ltac evict_then :=
+  match goal with
+  | G3 : good3 _ _, H : evict_user ?C0 _ false _ = (?c0, _) |- good3 ?S' ?c0 =>
+    destruct G3 as [G S]; split; [eapply (good_evict S' C0); [|exact H]|eapply sess_ok_evict; [|exact H]]
+  | G3 : good3 _ _ |- good3 _ _ => destruct G3 as [G S]; split
+  end.
+
+Lemma another_user_sub_good f s c n sid u target mode :
+  good3 s c -> target <> 0%N ->
+  good3 (h_st (fst (another_user_sub f s c n sid u target mode))) (h_ca (fst (another_user_sub f s c n sid u target mode))).
+Proof.
+  intros G3 NZ. unfold another_user_sub.
+  repeat break_match; cbn [fst h_st h_ca]; try exact G3.
+  all: repeat match goal with H : (_, _) = (_, _) |- _ => inv H end.
+  all: evict_then.
+  all: try exact G; try exact S; try (apply sess_ok_users_aset; exact S).
+  (* permission change of a cached target *)
+  1-2: (eapply good_update; [exact G|exact NZ|eassumption|reflexivity| |]; cbn [p_want p_given p_set_modes];
+        [intros O; destruct (coh_pud _ _ _ _ (proj2 G) ltac:(eassumption) O) as [_ E]; split; [|exact E];
+         rewrite E, N.eqb_refl in *; cbn [andb] in *;
+         match goal with H : negb (is_owner ?m) || _ = false |- _ => apply orb_false_iff in H; destruct H as [H _]; now apply negb_false_iff in H end
+        |intros E; destruct (coh_owner _ _ (proj2 G)) as [po [Lo [Wo _]]]; rewrite <- E in Lo; congruence]).
+  (* invitation of a user who is not cached *)
+  all: apply good_create; [exact G|exact NZ|assumption|eapply invite_want; eassumption].
+Qed.
+
+(* ------------------------------------------------------------------ *)
+(* thisUserSub, restated in named pieces (definitionally equal to Topic.this_user_sub) *)
+Definition tus_chk (c : cache) (u mw : N) (p0 : pud) : option (N * N * bool) :=
+  let oldw := p_want p0 in let oldg := p_given p0 in
+  if (mw =? ModeUnset)%N then Some (mw, oldg, false) else
+  if N.eqb (c_owner c) u && (negb (is_owner mw) || negb (is_joiner mw)) then None else
+  if is_owner oldg then
+    let oc := is_owner mw && negb (is_owner oldw) in
+    let g' := if is_owner mw && negb (better_equal oldg mw) then N.lor oldg mw else oldg in
+    Some (mw, g', oc)
+  else if is_owner mw then None
+  else if is_admin oldg && is_admin mw then
+    let mwd := N.land mw (N.lxor 255 mD) in
+    let g' := if negb (better_equal oldg (N.ldiff mw mD)) then N.lor oldg (N.ldiff mw mD) else oldg in
+    Some (mw, g', false)
+  else Some (mw, oldg, false).
+
+Definition tus_w1 (c : cache) (u mw1 g1 : N) (p0 : pud) : N :=
+  let oldw := p_want p0 in
+  if (mw1 =? ModeUnset)%N then
+    (if negb (is_joiner oldw) then
+       (if N.eqb (c_owner c) u then N.lor g1 (c_auth c) else N.ldiff (N.lor g1 (c_auth c)) mO)
+     else oldw)
+  else mw1.
+
+Definition tus_finish (u : N) (newsub_pkt : bool) (w1 g1 oldw oldg : N) (s3 : store) (c3 : cache) (n3 : nat) : hres * sub_res :=
+  let mk s c n o r := (mkH s c n o, r) in
+  let p1 := p_set_modes w1 g1 (get_pud c3 u) in
+  let c4 := c_set_users (aset u p1) c3 in
+  let changed := newsub_pkt || negb ((w1 =? oldw)%N && (g1 =? oldg)%N) in
+  let ch := if changed then Some (w1, g1) else None in
+  if negb (is_joiner w1) then
+    let '(c5, o5) := evict_user c4 u false 0%N in mk s3 c5 n3 o5 (SubOk ch)
+  else if negb (is_joiner g1) then mk s3 c4 n3 [] (SubErr 403)
+  else mk s3 c4 n3 [] (SubOk ch).
+
+Definition tus_existing (f : fault) (s : store) (c : cache) (n : nat) (u mw : N) (newsub_pkt : bool) (p0 : pud) : hres * sub_res :=
+  let mk s c n o r := (mkH s c n o, r) in
+  let oldw := p_want p0 in let oldg := p_given p0 in
+  match tus_chk c u mw p0 with
+  | None => mk s c n [] (SubErr 403)
+  | Some (mw1, g1, owner_change) =>
+    let w1 := tus_w1 c u mw1 g1 p0 in
+    let upd := mkUpd (if (w1 =? oldw)%N then None else Some w1) (if (g1 =? oldg)%N then None else Some g1) None None None in
+    let need_upd := negb ((w1 =? oldw)%N && (g1 =? oldg)%N) in
+    let '(ok1, n1) := if need_upd then call f n else (true, n) in
+    if negb ok1 then mk s c n1 [] (SubErr 500) else
+    let s1 := if need_upd then ad_subs_update s u upd else s in
+    if owner_change then
+      let prev := c_owner c in
+      let pp := get_pud c prev in
+      let pw := N.ldiff (p_want pp) mO in let pg := N.ldiff (p_given pp) mO in
+      let '(ok2, n2) := call f n1 in
+      if negb ok2 then mk s1 c n2 [] (SubErr 0) else
+      let s2 := ad_subs_update s1 prev (mkUpd (Some pw) (Some pg) None None None) in
+      let '(ok3, n3) := call f n2 in
+      if negb ok3 then mk s2 c n3 [] (SubErr 0) else
+      let s3 := st_owner u s2 in
+      tus_finish u newsub_pkt w1 g1 oldw oldg s3 (c_set_owner u (c_set_users (aset prev (p_set_modes pw pg pp)) c)) n3
+    else tus_finish u newsub_pkt w1 g1 oldw oldg s1 c n1
+  end.
+
+Definition tus_new (f : fault) (s : store) (c : cache) (n : nat) (u mw : N) (newsub_pkt : bool) : hres * sub_res :=
+  let mk s c n o r := (mkH s c n o, r) in
+  if max_subs <=? Z.of_nat (length (c_users c)) then mk s c n [] (SubErr 422) else
+  let '(ok1, n1) := call f n in
+  if negb ok1 then mk s c n1 [] (SubErr 500) else
+  let prev := ad_sub_get s u true in
+  let given0 := match prev with Some r => s_given r | None => ModeUnset end in
+  let given := if (given0 =? ModeUnset)%N then c_auth c else given0 in
+  let wantm := if (mw =? ModeUnset)%N then c_auth c else N.ldiff mw mO in
+  if negb (is_joiner given) then mk s c n1 [] (SubErr 403) else
+  let need_create := match prev with Some r => s_deleted r | None => true end in
+  let '(ok2, n2) := if need_create then call f n1 else (true, n1) in
+  if negb ok2 then mk s c n2 [] (SubErr 500) else
+  let s2 := if need_create then ad_sub_create s u wantm given else s in
+  let p := mkPud wantm given 0 0 0 0 in
+  let c2 := c_set_users (aset u p) c in
+  let changed := newsub_pkt || negb ((wantm =? 0)%N && (given =? 0)%N) in
+  if negb (is_joiner wantm) then
+    let '(c3, o3) := evict_user c2 u false 0%N in
+    mk s2 c3 n2 o3 (SubOk (if changed then Some (wantm, given) else None))
+  else mk s2 c2 n2 [] (SubOk (if changed then Some (wantm, given) else None)).
+
+Lemma tus_unfold f s c n sid u want nb :
+  this_user_sub f s c n sid u want nb =
+  let '(mw, okw) := match want with [] => (ModeUnset, true) | _ => unmarshal_text ModeUnset want end in
+  if negb okw then (mkH s c n [], SubErr 400) else
+  match alookup u (c_users c) with
+  | None => tus_new f s c n u mw nb
+  | Some p0 => tus_existing f s c n u mw nb p0
+  end.
+Proof. reflexivity. Qed.
+
+Ltac bool_hyps := repeat match goal with
+  | H : negb _ = true |- _ => apply negb_true_iff in H
+  | H : negb _ = false |- _ => apply negb_false_iff in H
+  | H : _ && _ = true |- _ => apply andb_true_iff in H; destruct H
+  | H : _ || _ = false |- _ => apply orb_false_iff in H; destruct H
+  | H : (_ =? _)%N = true |- _ => apply N.eqb_eq in H
+  | H : (_ =? _)%N = false |- _ => apply N.eqb_neq in H
+  end.
+
+Lemma is_owner_unset : is_owner ModeUnset = false.
+Proof. reflexivity. Qed.
+
+Lemma good_auth s c : good s c -> is_owner (c_auth c) = false.
+Proof. intros [[_ [_ [A _]]] [_ [_ [E _]]]]. rewrite E. exact A. Qed.
+
+Lemma tus_modes s c u mw p0 mw1 g1 oc :
+  good s c -> alookup u (c_users c) = Some p0 -> tus_chk c u mw p0 = Some (mw1, g1, oc) ->
+  (oc = false -> (is_owner (tus_w1 c u mw1 g1 p0) = true -> is_owner g1 = true /\ u = c_owner c) /\
+                 (u = c_owner c -> is_owner (tus_w1 c u mw1 g1 p0) = true)) /\
+  (oc = true -> is_owner (tus_w1 c u mw1 g1 p0) = true /\ is_owner g1 = true /\ u <> c_owner c /\
+                (tus_w1 c u mw1 g1 p0 =? p_want p0)%N = false /\ is_owner (p_given p0) = true /\ is_owner (p_want p0) = false).
+Proof.
+  intros G L CHK.
+  pose proof (good_auth _ _ G) as HA.
+  pose proof (coh_pud _ _ _ _ (proj2 G) L) as HP.
+  assert (u = c_owner c -> is_owner (p_want p0) = true /\ is_owner (p_given p0) = true) as HO.
+  { intros E. destruct (coh_owner _ _ (proj2 G)) as [po [Lo [Wo Go]]]. rewrite <- E in Lo. rewrite L in Lo. inv Lo. tauto. }
+  unfold tus_chk in CHK. unfold tus_w1.
+  repeat break_match_hyp; inv CHK; bool_hyps; subst; try rewrite N.eqb_refl;
+    repeat break_match; bool_hyps; subst;
+    rewrite ?is_owner_lor, ?is_owner_ldiff_O, ?is_owner_ldiff_D, ?is_owner_unset, ?HA in *; cbn [orb andb] in *.
+  all: split; [intros E0; try discriminate E0; split|intros E0; try discriminate E0].
+  all: try solve [intros W; try discriminate W; try (destruct (HP W)); auto].
+  all: try solve [intros E1; destruct (HO E1); congruence].
+  all: intros; repeat split; try (apply N.eqb_neq; intros EQ; rewrite EQ in *).
+  all: try match goal with H : ?a = ?a -> _ |- _ => destruct (H eq_refl) end.
+  all: try (destruct (is_owner (p_want p0)) eqn:W0; [destruct (HP eq_refl)|]).
+  all: try (destruct (N.eq_dec u (c_owner c)) as [EU|NU]; [destruct (HO EU)|]).
+  all: cbn [orb andb negb] in *; try congruence; try tauto.
+  all: try (rewrite ?orb_true_r; reflexivity).
+  all: try solve [repeat match goal with H : is_owner _ = true |- _ => rewrite H end; cbn; rewrite ?orb_true_r; reflexivity].
+  all: try match goal with H1 : is_owner ?m = true, E : is_owner ?m && _ = false |- _ => rewrite H1 in E; discriminate end.
+  all: try match goal with H : (c_owner ?c =? ?u)%N && _ = false, E : ?u = c_owner ?c |- _ =>
+             rewrite <- E, N.eqb_refl in H; cbn [andb] in H; bool_hyps; try assumption; try congruence end.
+  all: bool_hyps; assumption.
+Qed.
+
+Lemma tus_finish_good u nb w1 g1 oldw oldg s3 c3 n3 :
+  good3 s3 (c_set_users (aset u (p_set_modes w1 g1 (get_pud c3 u))) c3) ->
+  good3 (h_st (fst (tus_finish u nb w1 g1 oldw oldg s3 c3 n3))) (h_ca (fst (tus_finish u nb w1 g1 oldw oldg s3 c3 n3))).
+Proof.
+  intros [G S]. unfold tus_finish. destruct (negb (is_joiner w1)).
+  - destruct (evict_user _ u false 0) as [c5 o5] eqn:HE. cbn [fst h_st h_ca]. split.
+    + eapply good_evict; [exact G|exact HE].
+    + eapply sess_ok_evict; [exact S|exact HE].
+  - destruct (negb (is_joiner g1)); cbn [fst h_st h_ca]; split; assumption.
+Qed.
+
+Lemma good_transfer s c u p0 w1 g1 :
+  good s c -> u <> 0%N -> alookup u (c_users c) = Some p0 -> u <> c_owner c ->
+  is_owner w1 = true -> is_owner g1 = true ->
+  let prev := c_owner c in
+  let pp := get_pud c prev in
+  let pw := N.ldiff (p_want pp) mO in let pg := N.ldiff (p_given pp) mO in
+  let upd := mkUpd (if (w1 =? p_want p0)%N then None else Some w1) (if (g1 =? p_given p0)%N then None else Some g1) None None None in
+  good (st_owner u (ad_subs_update (ad_subs_update s u upd) prev (mkUpd (Some pw) (Some pg) None None None)))
+       (c_set_users (aset u (p_set_modes w1 g1 p0)) (c_set_owner u (c_set_users (aset prev (p_set_modes pw pg pp)) c))).
+Proof.
+  intros G NZ L NO W1 G1 prev pp pw pg upd.
+  destruct (coh_owner _ _ (proj2 G)) as [po [Lo [Wo Go]]].
+  assert (pp = po) as EP by (unfold pp, get_pud, prev; rewrite Lo; reflexivity).
+  destruct (oinv_old _ _ (proj2 G)) as [NZo _]. fold prev in NZo, Lo, NO.
+  eapply good_build; [exact G| | | | |].
+  - eapply sframe_trans; [|apply sframe_owner]. eapply sframe_trans; [|apply sframe_subs_update]. apply sframe_subs_update.
+  - repeat split.
+  - unfold shape. cbn [subs st_owner]. apply shape_subs_update, shape_subs_update. eapply good_shape; exact G.
+  - cbn [c_owner c_users c_set_users c_set_owner subs st_owner]. intros v.
+    rewrite !alookup_aset, !row_subs_update, (eqb0 _ NZ), (eqb0 _ NZo). cbn [orb].
+    pose proof (vrel_old _ _ v (proj2 G)) as V. fold prev in V.
+    destruct (N.eqb_spec v u) as [E|NE].
+    + rewrite E in *. destruct (N.eqb_spec u prev); [contradiction|].
+      pose proof (coh_at _ _ u (proj2 G)) as A. rewrite L in A. destruct A as [r [F [D [A1 [A2 [A3 [A4 A5]]]]]]].
+      rewrite F. cbn [option_map vrel apply_upd s_deleted s_want s_given upd u_want u_given u_read u_recv u_delid]. rewrite D. split.
+      * f_equal. unfold core, corerow; cbn. rewrite A1, A2, A3, A4, A5.
+        destruct (N.eqb_spec w1 (p_want p0)) as [->|]; destruct (N.eqb_spec g1 (p_given p0)) as [->|]; reflexivity.
+      * intros _. split; [reflexivity|]. split; [|reflexivity].
+        destruct (N.eqb_spec g1 (p_given p0)) as [E1|]; [rewrite A2, <- E1; exact G1|exact G1].
+    + destruct (N.eqb_spec v prev) as [E|NP].
+      * rewrite E in *. rewrite EP. 
+        pose proof (coh_at _ _ prev (proj2 G)) as A. rewrite Lo in A. destruct A as [r [F [D [A1 [A2 [A3 [A4 A5]]]]]]].
+        rewrite F. cbn [option_map vrel apply_upd s_deleted s_want s_given u_want u_given u_read u_recv u_delid]. rewrite D. split.
+        -- f_equal. unfold core, corerow; cbn. rewrite A3, A4, A5. unfold pw, pg. rewrite EP. reflexivity.
+        -- unfold pw. rewrite is_owner_ldiff_O. discriminate.
+      * unfold vrel in *. destruct (find_sub v (subs s)) as [r|]; [|exact V]. destruct V as [V1 V2]. split; [exact V1|].
+        intros W. destruct (V2 W) as [_ [_ X]]. contradiction.
+  - cbn [c_owner c_set_users c_set_owner]. split; [exact NZ|].
+    cbn [subs st_owner]. rewrite !row_subs_update, (eqb0 _ NZ), (eqb0 _ NZo). cbn [orb]. rewrite N.eqb_refl.
+    destruct (N.eqb_spec u prev); [contradiction|].
+    pose proof (coh_at _ _ u (proj2 G)) as A. rewrite L in A. destruct A as [r [F [D [A1 _]]]].
+    rewrite F. eexists. split; [reflexivity|]. cbn.
+    destruct (N.eqb_spec w1 (p_want p0)) as [E1|]; [rewrite A1, <- E1; exact W1|exact W1].
+Qed.
+
+Lemma good_same s c u p p' :
+  good s c -> alookup u (c_users c) = Some p -> core p' = core p -> good s (c_set_users (aset u p') c).
+Proof.
+  intros G L E.
+  eapply good_build; [exact G|apply sframe_refl|apply cframe_users|eapply good_shape; exact G| |apply (oinv_old s c); apply G].
+  cbn [c_owner c_users c_set_users]. intros v. rewrite alookup_aset.
+  destruct (N.eqb_spec v u) as [->|NE]; [|apply vrel_old; apply G].
+  pose proof (vrel_old _ _ u (proj2 G)) as V. rewrite L in V. unfold vrel in *. cbn [option_map] in *. rewrite E. exact V.
+Qed.
+
+Definition pending (p0 : pud) : Prop := is_owner (p_given p0) = true /\ is_owner (p_want p0) = false.
+
+Lemma tus_existing_good f s c n u mw nb p0 :
+  good3 s c -> u <> 0%N -> alookup u (c_users c) = Some p0 ->
+  ((forall k, fails f k = false) \/ ~ pending p0) ->
+  good3 (h_st (fst (tus_existing f s c n u mw nb p0))) (h_ca (fst (tus_existing f s c n u mw nb p0))).
+Proof.
+  intros G3 NZ L NF. unfold tus_existing.
+  destruct (tus_chk c u mw p0) as [[[mw1 g1] oc]|] eqn:CHK; [|exact G3].
+  destruct (tus_modes _ _ _ _ _ _ _ _ (proj1 G3) L CHK) as [M0 M1].
+  set (w1 := tus_w1 c u mw1 g1 p0) in *.
+  assert (get_pud c u = p0) as GP by (unfold get_pud; rewrite L; reflexivity).
+  destruct oc.
+  - (* ownership transfer *)
+    destruct (M1 eq_refl) as [W1 [G1 [NO [NE [PG PW]]]]]. clear M0 M1.
+    destruct NF as [NF|NF]; [|exfalso; apply NF; split; assumption].
+    rewrite NE. cbn [andb negb]. unfold call. rewrite !NF. cbn [negb].
+    apply tus_finish_good.
+    assert (get_pud (c_set_owner u (c_set_users (aset (c_owner c)
+              (p_set_modes (N.ldiff (p_want (get_pud c (c_owner c))) mO) (N.ldiff (p_given (get_pud c (c_owner c))) mO) (get_pud c (c_owner c)))) c)) u = p0) as GP'.
+    { unfold get_pud. cbn [c_users c_set_owner c_set_users]. rewrite alookup_aset.
+      destruct (N.eqb_spec u (c_owner c)); [contradiction|]. rewrite L. reflexivity. }
+    rewrite GP'. destruct G3 as [G S]. split.
+    + pose proof (good_transfer s c u p0 w1 g1 G NZ L NO W1 G1) as GT. cbv zeta in GT. rewrite NE in GT. exact GT.
+    + apply sess_ok_users_aset. apply (sess_ok_users_aset c (c_owner c)). exact S.
+  - (* own modes only *)
+    destruct (M0 eq_refl) as [U1 U2]. clear M0 M1.
+    destruct (negb ((w1 =? p_want p0)%N && (g1 =? p_given p0)%N)) eqn:NU.
+    + destruct (call f n) as [ok1 n1]. destruct (negb ok1); [exact G3|].
+      apply tus_finish_good. rewrite GP. destruct G3 as [G S]. split; [|apply sess_ok_users_aset; exact S].
+      eapply good_update; [exact G|exact NZ|exact L| |exact U1|exact U2].
+      unfold core, core_after; cbn.
+      destruct (N.eqb_spec w1 (p_want p0)) as [->|]; destruct (N.eqb_spec g1 (p_given p0)) as [->|]; reflexivity.
+    + cbn [negb]. apply tus_finish_good. rewrite GP. destruct G3 as [G S]. split; [|apply sess_ok_users_aset; exact S].
+      apply negb_false_iff, andb_true_iff in NU. destruct NU as [E1 E2]. apply N.eqb_eq in E1, E2.
+      eapply good_same; [exact G|exact L|]. unfold core; cbn. rewrite E1, E2. reflexivity.
+Qed.
+
+Lemma tus_new_good f s c n u mw nb :
+  good3 s c -> u <> 0%N -> alookup u (c_users c) = None ->
+  good3 (h_st (fst (tus_new f s c n u mw nb))) (h_ca (fst (tus_new f s c n u mw nb))).
+Proof.
+  intros G3 NZ L. unfold tus_new.
+  destruct (max_subs <=? Z.of_nat (length (c_users c))); [exact G3|].
+  destruct (call f n) as [ok1 n1]. destruct (negb ok1); [exact G3|].
+  set (given := if ((match ad_sub_get s u true with Some r => s_given r | None => ModeUnset end) =? ModeUnset)%N then c_auth c
+                else match ad_sub_get s u true with Some r => s_given r | None => ModeUnset end).
+  set (wantm := if (mw =? ModeUnset)%N then c_auth c else N.ldiff mw mO).
+  destruct (negb (is_joiner given)); [exact G3|].
+  assert (is_owner wantm = false) as WO.
+  { unfold wantm. destruct (mw =? ModeUnset)%N; [apply (good_auth s c); apply G3|apply is_owner_ldiff_O]. }
+  assert (match ad_sub_get s u true with Some r => s_deleted r | None => true end = true) as NC.
+  { unfold ad_sub_get. pose proof (coh_at _ _ u (proj2 (proj1 G3))) as A. rewrite L in A.
+    destruct (find_sub u (subs s)) as [r|]; [|reflexivity]. rewrite andb_false_r. exact A. }
+  rewrite NC. destruct (call f n1) as [ok2 n2]. destruct (negb ok2); [exact G3|].
+  destruct G3 as [G S].
+  pose proof (good_create s c u wantm given G NZ L WO) as GC.
+  destruct (negb (is_joiner wantm)).
+  - destruct (evict_user _ u false 0) as [c3 o3] eqn:HE. cbn [fst h_st h_ca]. split.
+    + eapply good_evict; [exact GC|exact HE].
+    + eapply sess_ok_evict; [|exact HE]. apply sess_ok_users_aset. exact S.
+  - cbn [fst h_st h_ca]. split; [exact GC|apply sess_ok_users_aset; exact S].
+Qed.
+
+Lemma this_user_sub_good f s c n sid u want nb :
+  good3 s c -> u <> 0%N ->
+  ((forall k, fails f k = false) \/ match alookup u (c_users c) with Some p0 => ~ pending p0 | None => True end) ->
+  good3 (h_st (fst (this_user_sub f s c n sid u want nb))) (h_ca (fst (this_user_sub f s c n sid u want nb))).
+Proof.
+  intros G3 NZ NF. rewrite tus_unfold.
+  destruct (match want with [] => (ModeUnset, true) | _ => unmarshal_text ModeUnset want end) as [mw okw].
+  destruct (negb okw); [exact G3|].
+  destruct (alookup u (c_users c)) as [p0|] eqn:L.
+  - apply tus_existing_good; assumption.
+  - apply tus_new_good; assumption.
+Qed.
